@@ -284,7 +284,7 @@ func valIsFetchTarget(sk *Skeleton) string {
 	var target string
 	ast.Inspect(d.fn.Body, func(n ast.Node) bool {
 		if call, ok := n.(*ast.CallExpr); ok {
-			if f := callee(info, call); f != nil && f.Name() == "fetchLookAhead" && len(call.Args) == 3 {
+			if f := callee(info, call); f != nil && (f.Name() == "fetchLookAhead" || f.Name() == "GetToken") && len(call.Args) == 3 {
 				if u, ok := unparen(call.Args[1]).(*ast.UnaryExpr); ok && u.Op == token.AND {
 					target = printNode(sk.Fset, u.X)
 				}
